@@ -43,5 +43,11 @@ For each mutation k in 1..2 create the directory {d}/m<k>/ containing:
 - demo_test.go : a small Go test, using only the library's public API, that FAILS with the mutation and PASSES without it; its header comment must contain exactly these two lines: `// Placement: copy this file to <path relative to the checkout>/<name>_test.go` and `// Run: go test -count=1 -run <TestName> ./<pkg>` (add -race on the Run line if the demo needs the race detector);
 - meta.json : {{"property": "{pid}", "summary": "<one line: what was changed>", "needs": "<what it needs in order to manifest>", "files": ["<changed files>"], "verified": "<the exact commands you ran and what you observed>"}}
 Verify all of that yourself: apply each patch alone on the pristine worktree, run the full suite once, run the demo with and without the patch. Reset the worktree between mutations (`git -C {d}/wt checkout -- . && git -C {d}/wt clean -fd`). NEVER use `git stash` (the stash is shared by every worktree of /repo and other people are working in theirs: entries cross over); keep work in progress as diff files in your own directory instead. When finished, remove the worktree (`git -C /repo worktree remove --force {d}/wt`). Final message: for each mutation one line with what it changes and what it needs to manifest."""
+    if "--one" in sys.argv:   # a short wave: one mutation per agent
+        txt = (txt.replace("produce TWO independent source changes (mutations) to the library, each of which BREAKS", "produce ONE source change (mutation) to the library which BREAKS")
+                  .replace("Make them realistic, subtle bugs of the kind a maintainer could introduce by accident: each must need", "Make it a realistic, subtle bug of the kind a maintainer could introduce by accident: it must need")
+                  .replace("At least ONE of the two must consist", "Prefer a mutation that consists")
+                  .replace("For each mutation k in 1..2 create the directory", "Create the directory").replace("/m<k>/", "/m1/")
+                  .replace("Pick sites in DIFFERENT files or functions for the two, and prefer", "Prefer"))
     open(f'{base}/prompt_{pid}.txt', 'w').write(txt)
     print(pid, len(tried), 'tried;', len(txt), 'chars')
